@@ -245,8 +245,9 @@ class _BaseMMC(MahalanobisMixin):
     i.e. distance can be L1:  \sqrt{(x_i-x_j)A(x_i-x_j)'}
     """
     diff = neg_pairs[:, 0, :] - neg_pairs[:, 1, :]
-    return np.log(np.sum(np.sqrt(np.sum(np.dot(diff, A) * diff, axis=1))) +
-                  1e-6)
+    # (rounding can leave the quadratic form of a singular A slightly negative)
+    sq_dist = np.maximum(np.sum(np.dot(diff, A) * diff, axis=1), 0.)
+    return np.log(np.sum(np.sqrt(sq_dist)) + 1e-6)
 
   def _fD1(self, neg_pairs, A):
     r"""The gradient of the dissimilarity constraint function w.r.t. A.
@@ -264,7 +265,7 @@ class _BaseMMC(MahalanobisMixin):
     # outer products of all rows in `diff`
     M = np.einsum('ij,ik->ijk', diff, diff)
     # faster version of: dist = np.sqrt(np.sum(M * A[None,:,:], axis=(1,2)))
-    dist = np.sqrt(np.einsum('ijk,jk', M, A))
+    dist = np.sqrt(np.maximum(np.einsum('ijk,jk', M, A), 0.))
     # faster version of: sum_deri = np.sum(M /
     # (2 * (dist[:,None,None] + 1e-6)), axis=0)
     sum_deri = np.einsum('ijk,i->jk', M, 0.5 / (dist + 1e-6))
